@@ -111,7 +111,7 @@ func vC19ScrTerm(recording bool, kind int, ops []vScrape, vec [vC19NCounters]int
 		}
 		it[i] = vPair(vList(rs), vBool(o.err))
 	}
-	return fmt.Sprintf("CScr %s %s %s %s", vBool(recording), vZ(int64(kind)), vList(it), vC19Vec(vec))
+	return fmt.Sprintf("(CScr %s %s %s %s)", vBool(recording), vZ(int64(kind)), vList(it), vC19Vec(vec))
 }
 
 // vC19RunScrapes runs one history on the real controller and returns the counters plus the
